@@ -194,6 +194,12 @@ def verify_function(key, table, fields, monitor=None, timeout_ms=None, cex_fn=No
             res.status, res.message = "error", "precondition is not satisfiable (vacuous contract)"
             return res
         ex.heap0_ref = st.heap0
+        _targets = {}
+        for m_ in con.modifies:
+            if isinstance(m_, Field) and m_.obj is not None:
+                _targets.setdefault(m_.name, []).append(m_.obj)
+        # objects whose field the contract's frame allows to change: loop and join havocs do not keep them (sound: more havoc)
+        ex.frame_refs = lambda f, _t=_targets, _c=pre_ctx: [Val.ref(fn_(_c)) for fn_ in _t.get(f, [])]
         outs = ex.run(st)
     except Unsupported as e:
         res.status, res.message = "unsupported", str(e)
